@@ -53,12 +53,20 @@ def strat_T(tier):
         'ab': st.tuples(U.nice_float(-2, 2), U.nice_float(-2, 2), U.nice_float(-2, 2), U.nice_float(-2, 2)).map(lambda t: [round(v, 3) for v in t]),
         'mag': st.sampled_from([0, 0, 0, 0, -9, -12, 9, -30, 30, -100, 100]),       # decimal exponent of an overall amplitude factor: the relations are homogeneous in the field
         # an earlier transform in the same session that shares the sampling of one axis only (bases cached per axis)
-        'pre': st.sampled_from(['none', 'none', 'share-rows', 'share-cols', 'failed-calls']),
+        'pre': st.sampled_from(['none', 'none', 'share-rows', 'share-cols', 'failed-calls', 'other-shift', 'interleaved-many']), 'fftbackend': U.fft_backends,
     })
 
 
 def check_T(case, ctx):
     """focus/unfocus_fixed_sampling: linear; unchanged by zero-embedding the input; transposed by transposing input and per-axis arguments."""
+    be = case.get('fftbackend', 'scipy')
+    if be != 'scipy':
+        ctx.label('fft-backend:' + be)
+    with U.fft_backend(be):
+        _check_T_inner(case, ctx)
+
+
+def _check_T_inner(case, ctx):
     from prysm import propagation as P
     _reset()
     shape, pad, out, method, fwd = case['shape'], case['pad'], case['out'], case['method'], case['fwd']
@@ -108,6 +116,18 @@ def check_T(case, ctx):
                 except Exception:      # noqa - the caller of an invalid request catches whatever comes
                     pass
         ctx.label('pre-call:' + pre)
+    elif pre == 'other-shift':
+        # the same geometry first with other shifts (none, one and two samples down): bases shared or derived between shifts of one geometry
+        for os_ in ((0, 0), (-1 * dx_out, 0), (-2 * dx_out, 0), (0, -1 * dx_out), (0, -2 * dx_out)):
+            if os_ != tuple(sh):
+                T(a, s=os_)
+        ctx.label('pre-call:' + pre)
+    elif pre == 'interleaved-many':
+        tiny = np.ones((2, 3), dtype=complex)
+        for i in range(40):
+            ctx.call(T0, tiny, dx_in, efl, lam, dx_out * (1 + i / 64), (3, 2), method=method)
+            T(a)
+        ctx.label('pre-call:' + pre)
     elif pre != 'none':
         pshape = (ny, nx + 1) if pre == 'share-rows' else (ny + 1, nx)
         T(np.ones(pshape, dtype=complex))
@@ -144,7 +164,7 @@ def strat_mask(tier):
         'shift': _shift(), 'phys': _phys(), 'method': st.sampled_from(['mdft', 'czt']),
         'mkind': st.sampled_from(['real', 'complex', 'binary', 'int-pm', 'uint8', 'bool']), 'via': st.sampled_from(['function', 'wavefront', 'wavefront-mask']),
         'kind': U.field_kinds, 'seed': U.seeds, 'mag': st.sampled_from([0, 0, 0, 0, -9, -12, 9, -30, 30, -100, 100]),
-        'mask_space': st.sampled_from(['psf', 'pupil', 'default'])})     # a mask given as a Wavefront: its dx is the mask spacing whatever its `space` label
+        'mask_space': st.sampled_from(['psf', 'pupil', 'default']), 'fftbackend': U.fft_backends})     # a mask given as a Wavefront: its dx is the mask spacing whatever its `space` label
 
 
 def _mask(case, salt=0):
@@ -179,6 +199,14 @@ def _chain(f, m, Q, shift_samples):
 
 def check_mask(case, ctx):
     """to_fpm_and_back: equals the textbook DFT chain, additive in the mask, Babinet; Wavefront.babinet == f - T_(1-m) f."""
+    be = case.get('fftbackend', 'scipy')
+    if be != 'scipy':
+        ctx.label('fft-backend:' + be)
+    with U.fft_backend(be):
+        _check_mask_inner(case, ctx)
+
+
+def _check_mask_inner(case, ctx):
     from prysm import propagation as P
     _reset()
     shape, method, via = case['shape'], case['method'], case['via']
@@ -283,11 +311,19 @@ def strat_identity(tier):
         'shape': st.one_of(st.tuples(ax, ax).map(list), st.tuples(ax, ax).map(list), ax.map(lambda k: [k, k])),
         'extra': st.one_of(st.just(0), st.integers(0, 6), st.integers(0, nmax)),
         'shift': _shift(), 'phys': _phys(), 'method': st.sampled_from(['mdft', 'czt']), 'via': st.sampled_from(['function', 'wavefront']),
-        'kind': U.field_kinds, 'seed': U.seeds})
+        'kind': U.field_kinds, 'seed': U.seeds, 'fftbackend': U.fft_backends})
 
 
 def check_identity(case, ctx):
     """an all-pass mask sampled over the whole band (fpm_dx * samples == lambda f / dx on both axes) returns the field, for every mask shift."""
+    be = case.get('fftbackend', 'scipy')
+    if be != 'scipy':
+        ctx.label('fft-backend:' + be)
+    with U.fft_backend(be):
+        _check_identity_inner(case, ctx)
+
+
+def _check_identity_inner(case, ctx):
     from prysm import propagation as P
     _reset()
     shape, method, via = case['shape'], case['method'], case['via']
@@ -325,12 +361,20 @@ def strat_exec(tier):
         'Q': st.one_of(q.map(lambda v: [v, v]), st.tuples(q, q).map(list)), 'scalarQ': st.booleans(), 'pad': st.tuples(pad, pad).map(list),
         'shift': _shift(), 'method': st.sampled_from(['mdft', 'czt']), 'fwd': st.booleans(), 'kind': U.field_kinds, 'seed': U.seeds, 'layout': U.layouts,
         'ab': st.tuples(U.nice_float(-2, 2), U.nice_float(-2, 2), U.nice_float(-2, 2), U.nice_float(-2, 2)).map(lambda t: [round(v, 3) for v in t]),
-        'pre': st.sampled_from(['none', 'none', 'share-rows', 'share-cols', 'failed-calls']),
+        'pre': st.sampled_from(['none', 'none', 'share-rows', 'share-cols', 'failed-calls', 'other-shift', 'interleaved-many']), 'fftbackend': U.fft_backends,
     })
 
 
 def check_exec(case, ctx):
     """mdft.dft2/idft2 and czt.czt2/iczt2 called directly with per-axis (or scalar) Q: linear, embedding invariant (Q n constant per axis), transposes."""
+    be = case.get('fftbackend', 'scipy')
+    if be != 'scipy':
+        ctx.label('fft-backend:' + be)
+    with U.fft_backend(be):
+        _check_exec_inner(case, ctx)
+
+
+def _check_exec_inner(case, ctx):
     from prysm.fttools import mdft, czt
     _reset()
     shape, out, method, fwd = case['shape'], case['out'], case['method'], case['fwd']
@@ -361,6 +405,17 @@ def check_exec(case, ctx):
                 getattr(mdft if fn_ in ('dft2', 'idft2') else czt, fn_)(np.ones((2, 3, 2), dtype=complex), Q, tuple(out), sh)
             except Exception:      # noqa - the caller of an invalid request catches whatever comes
                 pass
+        ctx.label('pre-call:' + pre)
+    elif pre == 'other-shift':
+        for os_ in ((0, 0), (-1, 0), (-2, 0), (0, -1), (0, -2)):
+            if os_ != tuple(sh):
+                ctx.call(T0, a, Q, tuple(out), os_)
+        ctx.label('pre-call:' + pre)
+    elif pre == 'interleaved-many':
+        tiny = np.ones((2, 3), dtype=complex)
+        for i in range(40):
+            ctx.call(T0, tiny, 1 + i / 64, (3, 2))
+            ctx.call(T0, a, Q, tuple(out), sh)
         ctx.label('pre-call:' + pre)
     elif pre != 'none':
         # an earlier call on the shared executor with the same (n, Q, samples, shift) on one axis and another length on the other axis
